@@ -387,13 +387,46 @@ def frag_ctor():
             init = cm.group(2) or ""
             inits = set(re.findall(r"(\w+)\s*\(", init))
             delegates = cls in inits
+            # the initialiser items `name(args)` at the top level of the list, with their argument text
+            args_of = {}
+            body = init.lstrip(" :\n\t")
+            depth, cur, items = 0, "", []
+            for ch in body:
+                if ch == "(":
+                    depth += 1
+                elif ch == ")":
+                    depth -= 1
+                if ch == "," and depth == 0:
+                    items.append(cur)
+                    cur = ""
+                else:
+                    cur += ch
+            if cur.strip():
+                items.append(cur)
+            for it in items:
+                im = re.match(r"\s*(\w+)\s*\((.*)\)\s*$", it, re.S)
+                if im:
+                    args_of[im.group(1)] = BoolExpr.norm(im.group(2))
             for name, scalar in members:
-                entries.append((cls, kind, name, scalar, delegates or name in inits))
-    text = GEN_HEADER % "member-initialiser lists of EventQueueBase, HeterEventQueueBase, CallbackListBase constructors"
-    text += "namespace Evp.Gen.Ctor\n\nstructure Entry where\n  cls : String\n  ctor : String\n  member : String\n  scalar : Bool\n  initialised : Bool\nderiving DecidableEq, Repr\n\n"
+                val = args_of.get(name, "<delegated>" if delegates else "<none>")
+                entries.append((cls, kind, name, scalar, delegates or name in inits, val if scalar else ""))
+    # SpinLock has no constructor: its flag must carry a default member initialiser (before C++20 a default
+    # constructed std::atomic_flag is indeterminate, and members of this type are not always named in the
+    # initialiser lists of the classes that hold one, e.g. ScopedRemover::itemListMutex)
+    psrc = strip_comments(read_src("include/eventpp/eventpolicies.h"))
+    sm = re.search(r"struct\s+SpinLock\s*\{(.*?)\n\};", psrc, re.S)
+    if not sm:
+        raise ValueError("struct SpinLock not found")
+    fm = re.search(r"std::atomic_flag\s+(\w+)\s*(?:=\s*([^;]+?)\s*|\{\s*([^}]*?)\s*\}\s*)?;", sm.group(1))
+    if not fm:
+        raise ValueError("SpinLock flag member not found")
+    finit = fm.group(2) if fm.group(2) is not None else (("{" + fm.group(3) + "}") if fm.group(3) is not None else None)
+    entries.append(("SpinLock", "default", fm.group(1), True, finit is not None, BoolExpr.norm(finit) if finit is not None else "<none>"))
+    text = GEN_HEADER % "member-initialiser lists of EventQueueBase, HeterEventQueueBase, CallbackListBase constructors; SpinLock's flag"
+    text += "namespace Evp.Gen.Ctor\n\nstructure Entry where\n  cls : String\n  ctor : String\n  member : String\n  scalar : Bool\n  initialised : Bool\n  /-- for scalar members: the initialiser's argument text, `<delegated>` or `<none>` -/\n  init : String\nderiving DecidableEq, Repr\n\n"
     text += "/-- one row per (class, constructor, data member): is the member named in the constructor's initialiser list\n    (or does the constructor delegate to one that names it)? `scalar` = the atomic counters -/\n"
     text += "def table : List Entry := [\n"
-    text += ",\n".join('  ⟨"%s", "%s", "%s", %s, %s⟩' % (c, k, n, "true" if sc else "false", "true" if i else "false") for c, k, n, sc, i in entries)
+    text += ",\n".join('  ⟨"%s", "%s", "%s", %s, %s, "%s"⟩' % (c, k, n, "true" if sc else "false", "true" if i else "false", v.replace('"', "'")) for c, k, n, sc, i, v in entries)
     text += "\n]\n\nend Evp.Gen.Ctor\n"
     if not any(e[1] == "copy" for e in entries) or not any(e[3] for e in entries):
         raise ValueError("constructor table incomplete")
